@@ -27,7 +27,8 @@ PROPS = {
         assumptions=[
             "PodENI objects have the shapes terway's controllers write: every allocation has an IPv4 address (plus IPv6 on dual-stack) with its "
             "vSwitch CIDR - except in the 'incomplete record' class (1 world in 8: one family's CIDR empty or too small for the reserved gateway), "
-            "where handing out no configuration is accepted; Status.ENIInfos has an entry per allocation, interface names are distinct; allocations after the first reuse the vSwitch of an earlier "
+            "where handing out no configuration is accepted; Status.ENIInfos has an entry per allocation, interface names are distinct; on a dual-stack node each allocation independently lacks IPv6 one time in three (with or without the vSwitch's ipv6CIDR recorded) - a family the "
+            "allocation lacks must be absent from its NetConf, and no address may appear on two interfaces of one reply; vSwitches of one pod do not overlap; allocations after the first reuse the vSwitch of an earlier "
             "one half of the time (same CIDR strings, distinct addresses); "
             "default-route flags and the presence of a primary interface are NOT assumed (the daemon must refuse bad combinations)",
             "CRD worlds: 1 in 6 has an incomplete ENI record in the Node CR (ipv4CIDR/ipv6CIDR empty - e.g. recorded before the vSwitch got IPv6 - "
